@@ -30,7 +30,7 @@ export function analyse(file, moduleNames) {
     const target = dyn ? disabled : mapped
     switch (n.t) {
       case 'text': refs(n.v, scopes, target); break
-      case 'comment': break
+      case 'comment': case 'hoist': break
       case 'el': {
         const sc = [...scopes, ...(n.slotVals || []).map((s) => (s.as === undefined ? M.dashToCamel(s.name) : s.as))]
         for (const a of n.attrs) if (a.value && !['worklet', 'generic', 'extra-attr'].includes(a.fam)) refs(a.value, sc, target)
